@@ -61,11 +61,35 @@ class Flow:
         work = [cfg.entry]
         gen: Dict[int, Set[str]] = {n.id: {v for v in assigned_names(n) if '.' not in v} for n in cfg.nodes}
         seen_once: Set[int] = set()
+        # exception edges exist in the CFG only where a `raises` oracle was supplied; for reaching definitions every node of a
+        # try body may (conservatively) transfer to each of its handlers with the definitions that reached it
+        extra: Dict[int, List[object]] = {}
+        for n in cfg.nodes:
+            if n.kind in ('entry', 'exit', 'raise', 'handler'):
+                continue
+            have = {e.dst.id for e in cfg.succ[n.id] if e.label == 'exc'}
+            for fr in n.frames:
+                if fr[0] == 'try':
+                    for hn in fr[2]:
+                        if hn.id not in have:
+                            extra.setdefault(n.id, []).append(hn)
         while work:
             n = work.pop()
             out = dict(IN[n.id])
             for v in gen[n.id]:
                 out[v] = frozenset([n.id])
+            for hn in extra.get(n.id, ()):
+                tgt = IN[hn.id]     # type: ignore[attr-defined]
+                changed = hn.id not in seen_once     # type: ignore[attr-defined]
+                seen_once.add(hn.id)     # type: ignore[attr-defined]
+                for v, ds in IN[n.id].items():
+                    old = tgt.get(v, frozenset())
+                    new = old | ds
+                    if new != old:
+                        tgt[v] = new
+                        changed = True
+                if changed:
+                    work.append(hn)     # type: ignore[arg-type]
             for e in cfg.succ[n.id]:
                 tgt = IN[e.dst.id]
                 changed = e.dst.id not in seen_once
@@ -293,6 +317,22 @@ class Flow:
                     elt_expr = call
                 return [SeqSrc('iter', iter=e.args[1], target=tgt, elt=[Alt(x.expr, x.guards, n) for x in _expand_ifexp(elt_expr)], total=True,
                                guards=a.guards, node=n, lazy=True, comp=e)]
+            if fn == 'filter' and len(e.args) == 2 and not e.keywords:
+                # filter(lambda p: C(p), X)  ==  (p for p in X if C(p));  filter(None, X)  ==  (p for p in X if p)
+                F = e.args[0]
+                pn: Optional[str] = None
+                body: Optional[ast.expr] = None
+                if isinstance(F, ast.Lambda) and len(F.args.args) == 1 and not F.args.posonlyargs and not F.args.kwonlyargs and \
+                        not F.args.vararg and not F.args.kwarg and not F.args.defaults:
+                    pn, body = F.args.args[0].arg, F.body
+                elif isinstance(F, ast.Constant) and F.value is None:
+                    pn = '_elt'
+                    body = ast.copy_location(ast.Name(id='_elt', ctx=ast.Load()), e)
+                if pn is not None and body is not None:
+                    tgt = ast.copy_location(ast.Name(id=pn, ctx=ast.Store()), e)
+                    ld = ast.copy_location(ast.Name(id=pn, ctx=ast.Load()), e)
+                    return [SeqSrc('iter', iter=e.args[1], target=tgt, elt=[Alt(ld, [], n)], filters=[(body, True)], total=False,
+                                   guards=a.guards, node=n, lazy=True, comp=e)]
             if fn in ('filter',) and len(e.args) == 2:
                 inner = self.seq(n, e.args[1], depth + 1)
                 for s in inner:
